@@ -213,11 +213,23 @@ pub fn run(a: &Args, out: &mut Out) {
         let vq = if i % 2 == 0 { pool_q.pick(&mut rng) } else { rand_bytes(&mut rng, 32) };
         let x = Fq::from_slice(&vq).unwrap();
         let sx = x.to_slice();
-        out.call("f.roundtrip", json!({"F": "Fq", "a": b(&sx)}), || outs! {"out" => opt_bytes(Fq::from_slice(&x.to_slice()).map(|y| y.to_slice())), "same" => Value::Bool(Fq::from_slice(&x.to_slice()) == Some(x))});
+        out.call("f.roundtrip", json!({"F": "Fq", "a": b(&sx)}), || {
+            // the From / TryFrom conversions are the same functions under other names
+            let via_from: [u8; 32] = x.into();
+            let f2 = Fq2::new(x, Fq::one());
+            let f2b: [u8; 64] = f2.into();
+            let ok = via_from == x.to_slice() && f2b == f2.to_slice() && Fq2::try_from(&f2b[..]).ok() == Some(f2) && Fq2::try_from(&f2b[..63]).is_err();
+            outs! {"out" => opt_bytes(Fq::from_slice(&x.to_slice()).map(|y| y.to_slice())), "same" => Value::Bool(Fq::from_slice(&x.to_slice()) == Some(x) && ok)}
+        });
         let vr = if i % 2 == 0 { pool_r.pick(&mut rng) } else { rand_bytes(&mut rng, 32) };
         let y = Fr::from_slice(&vr).unwrap();
         let sy = y.to_slice();
-        out.call("f.roundtrip", json!({"F": "Fr", "a": b(&sy)}), || outs! {"out" => opt_bytes(Fr::from_slice(&y.to_slice()).map(|z| z.to_slice())), "same" => Value::Bool(Fr::from_slice(&y.to_slice()) == Some(y))});
+        out.call("f.roundtrip", json!({"F": "Fr", "a": b(&sy)}), || {
+            let via_from: [u8; 32] = y.into();
+            let via_ref: [u8; 32] = (&y).into();
+            let ok = via_from == y.to_slice() && via_ref == y.to_slice();
+            outs! {"out" => opt_bytes(Fr::from_slice(&y.to_slice()).map(|z| z.to_slice())), "same" => Value::Bool(Fr::from_slice(&y.to_slice()) == Some(y) && ok)}
+        });
         let lens: Vec<usize> = if i == 0 || thorough { (0..=70).collect() } else { vec![0, 1, 31, 32, 33, 64] };
         for len in lens {
             out.call("f.to_big_endian", json!({"a": b(&sx), "buflen": len}), || {
